@@ -33,7 +33,7 @@ FLOORS = {"quick": {"events": 60000, "new_acks": 20000, "dup_acks": 10000, "fast
                        "timeouts": 40000, "slow_start_acks": 100000, "cong_avoid_acks": 100000, "deflations": 20000,
                        "short_dup_runs": 16000, "new_segments_checked": 400000, "guard_tight": 60000,
                        "cubic_cases": 4000, "reno_cases": 4000, "multi_segment_acks": 60000, "rtt_above_rto": 10000}}
-KEYS = tuple(FLOORS["quick"].keys()) + ("candidate_forks", "simultaneous_timeouts", "app_paced_cases", "windows_beyond_65535", "sync_acks_inside_fast_retransmit", "finite_finish_time_cases", "timeouts_after_finish_time", "other_mss_cases")
+KEYS = tuple(FLOORS["quick"].keys()) + ("candidate_forks", "simultaneous_timeouts", "app_paced_cases", "windows_beyond_65535", "sync_acks_inside_fast_retransmit", "finite_finish_time_cases", "timeouts_after_finish_time", "other_mss_cases", "new_acks_triggered_above_a_hole")
 # floors for the situations added with the later rounds of seeded changes (evidence that they were really exercised)
 FLOORS["quick"].update({'sync_acks_inside_fast_retransmit': 500, 'timeouts_after_finish_time': 400})
 FLOORS["thorough"].update({'sync_acks_inside_fast_retransmit': 2500, 'timeouts_after_finish_time': 2000})
@@ -57,7 +57,8 @@ def gen_case(rng, i):
     for _ in range(rng.randint(10, 300)):
         r = rng.random()
         if r < 0.55:
-            ev.append(["ack", rng.choice([1, 1, 1, 2, 3, 8]), rng.choice([0.01, 0.05, 0.1, 0.3, 1.0, 2.5, 6.0, 0.0, 1e-5, 3e-5])])
+            ev.append(["ack", rng.choice([1, 1, 1, 2, 3, 8]), rng.choice([0.01, 0.05, 0.1, 0.3, 1.0, 2.5, 6.0, 0.0, 1e-5, 3e-5])]
+                      + ([rng.choice([1, 1, 2, 3])] if rng.random() < 0.15 else []))
         elif r < 0.8:
             ev.append(["dup", rng.choice([1, 2, 3, 3, 4, 5, 8, 8, 40, 100, 150] if big else [1, 2, 3, 3, 4, 5, 8])]
                       + ([[rng.choice([1, 1, 2, 8]), rng.choice([0.01, 0.1, 0.3])]] if rng.random() < 0.15 else []))
@@ -239,6 +240,7 @@ def run_case(case, stats):
     sender = TCPPacketGenerator(env, flow=flow, cc=cc, rtt_estimate=case["rtt0"])
     sender.mss = MSS
     worlds = [Ref(case)]
+    recv_above = set()    # segments above a hole the receiver is known to hold (they triggered an ACK)
     arm = {}              # seq -> (arm time, rto armed with)   (shared by all worlds: derived from observations)
     txlog = []            # (now, seq, kind)
     pending = {"retx_expected": None}
@@ -288,6 +290,8 @@ def run_case(case, stats):
                     outstanding = (w0.next_seq - w0.last_ack) // MSS
                     k = max(1, min(k, outstanding))
                     ackno = w0.last_ack + k * MSS
+                    while ackno in recv_above and ackno < w0.next_seq:
+                        ackno += MSS
                     a = Packet(now - rtt, 40, ackno - MSS, flow_id=10001)
                     a.ack = ackno
                     stats["new_acks"] += 1
@@ -368,15 +372,26 @@ def run_case(case, stats):
                     continue
                 k = min(evn[1], outstanding)
                 ackno = w0.last_ack + k * MSS
+                while ackno in recv_above and ackno < w0.next_seq:
+                    ackno += MSS               # the receiver already holds that segment: its cumulative ACK goes past it
                 rtt = evn[2]
                 if k > 1:
                     stats["multi_segment_acks"] += 1
                 if rtt > w0.rto:
                     stats["rtt_above_rto"] += 1
-                a = Packet(env.now - rtt, 40, ackno - MSS, flow_id=10001)
+                trig = ackno - MSS
+                if len(evn) > 3 and ackno + evn[3] * MSS < w0.next_seq:
+                    # this ACK was produced by a segment ABOVE a hole at ackno (the earlier ACK carrying this number was
+                    # lost on the way back): it names that later segment, whose timer may be cleared as well
+                    trig = ackno + evn[3] * MSS
+                    recv_above.add(trig)
+                    stats["new_acks_triggered_above_a_hole"] += 1
+                a = Packet(env.now - rtt, 40, trig, flow_id=10001)
                 a.ack = ackno
                 stats["new_acks"] += 1
                 ref_new_ack(ackno, rtt)
+                if trig in arm:
+                    del arm[trig]
                 n0 = len(txlog)
                 sender.put(a)          # the reference has been stepped first: the tap sees the new window
                 settle()
